@@ -38,7 +38,7 @@
 (*             name served by the driver's DNS server (-resolvers), with the *)
 (*             default -dns-ttl (kept for ever) or -dns-ttl=-1 (not kept);   *)
 (*             "expire": -dns-ttl=100ms, and the name stops resolving 0.3 s  *)
-(*             into a run of two seconds                                     *)
+(*             into a run of three seconds                                   *)
 (*             o.dnsq = the number of address queries the server received    *)
 (*   lookup    the targets name the server as localhost (looked up by the     *)
 (*             caching dialer) and -dns-ttl=1us: the ttl is how long an      *)
@@ -248,7 +248,7 @@ CmdOK(c, o) ==
                /\ (c.maxw = 1 => \A k \in 1..K : Hits(o)[k].idx = k /\ Hits(o)[k].seq = k - 1)
           ELSE /\ Ends(o) = <<>>
                /\ Len(Hits(o)) >= 1
-               /\ (c.rate > 0 => Len(Hits(o)) <= (c.rate * (IF c.stall THEN 1200 ELSE IF c.dnsdest = "expire" THEN 2000 ELSE DurMs)) \div 1000 + 1)
+               /\ (c.rate > 0 => Len(Hits(o)) <= (c.rate * (IF c.stall THEN 1200 ELSE IF c.dnsdest = "expire" THEN 3000 ELSE DurMs)) \div 1000 + 1)
                /\ (c.maxw = 1 => \A k \in 1..Len(Hits(o)) : Hits(o)[k].idx = ((Hits(o)[k].seq) % K) + 1)
        \* -max-workers bounds what the server sees at once; with an unlimited rate and slow answers the capacity is used
        \* (a request the client gave up on is still running in the server: cases with a timeout are left out)
@@ -266,8 +266,8 @@ CmdOK(c, o) ==
        \* certain for a single worker only; with more, a request beyond the first max-workers needs a lookup of its own)
        /\ (c.dnsdest = "off" /\ Reaches(c) /\ c.maxw = 1 => o.dnsq >= Len(o.reqs))
        /\ (c.dnsdest = "off" /\ Reaches(c) /\ Len(o.reqs) > c.maxw => o.dnsq >= 2)
-       \* -dns-ttl=100ms over two seconds, the name gone after 0.3 s: hits succeed while it resolves; once the answer is older
-       \* than the ttl it is asked for again, so from 0.7 s after the name went no hit succeeds any more
+       \* -dns-ttl=100ms over three seconds, the name gone after 0.3 s: hits succeed while it resolves; once the answer is older
+       \* than the ttl it is asked for again, so from 1.5 s after the name went no hit succeeds any more
        /\ (c.dnsdest = "expire" /\ Reaches(c) => o.early_ok >= 1 /\ o.late_n >= 1 /\ o.late_ok = 0)
        \* -session-tickets: without it no TLS session is ever resumed; with it one sequential worker that opens a connection per
        \* request makes one full handshake, every later connection resumes the session
